@@ -144,7 +144,7 @@ class Table:
                 return Val("const", ("fn", norm(op["fn"])))
             return Val("sym", op.get("text", "?"))
         pl = op["place"]
-        if not pl["p"] and pl["l"] in env:
+        if pl["l"] in env and all(pe["k"] == "deref" for pe in pl["p"]):
             return env[pl["l"]]
         # field of a known aggregate
         if pl["l"] in env and env[pl["l"]].kind == "agg":
@@ -228,7 +228,7 @@ class Table:
                         v = Val("sym", "%s(%s,%s)" % (rv["op"], vdesc(a), vdesc(b)))
                 elif k in ("ref", "rawptr"):
                     pl = rv["place"]
-                    if not pl["p"] and pl["l"] in env:
+                    if pl["l"] in env and all(pe["k"] == "deref" for pe in pl["p"]):
                         v = env[pl["l"]]
                     else:
                         v = Val("place", canon_place(body, pl, {}))
